@@ -121,6 +121,10 @@ def jobs(tier, seed):
     out = []
     for i, d in enumerate(defs):
         out.append(('def%04d' % i, 'h_def', dict(spec=d)))
+    for extra in (1, 2):
+        for strict in (True, False):
+            out.append(('nested-tail.extra=%d.%s' % (extra, 'strict' if strict else 'lenient'), 'h_nested_tail', dict(extra=extra, strict=strict)))
+    out.append(('spare.variable-length', 'h_spare_var', {}))
     return out
 
 
@@ -471,3 +475,52 @@ def h_def(ctx, spec):
             with ctx.no_raise('wide:no-exception'):
                 data5 = e5.to_bytes()
             check_seq_eq(ctx, 'wide.octet', raw_of(data5), ref_encode(spec, v5))
+
+
+def h_nested_tail(ctx, extra, strict):
+    """a nested envelope inside a wrapper field that is `extra` octets longer than what the inner definition consumes: with length
+    checking on (the default) the unread octets inside the wrapper are trailing octets and the message is refused; with length
+    checking off they are skipped and decoding continues behind the wrapper"""
+    T = env.load(ctx, 'codec')
+    c = T.codec
+    inner_spec = [['uint', 'a', 1, 0, 'big', 0, 1], ['buf', 'b', 2]]
+    with env.symbolic(ctx):
+        inner = build(T, inner_spec, check_len=strict)
+        outer = type('Outer', (c.Envelope,), dict(STRUCT=(inner.f('in', len=3 + extra), c.Uint('z'))))()
+        o = ctx.ints('o', 3 + extra + 1, 0, 255)
+        rejected = False
+        with ctx.no_raise('decode:only-DecodeError', allowed=(c.DecodeError,)):
+            try: n = outer.from_bytes(mk_bytes(ctx, o))
+            except c.DecodeError: rejected = True
+        if strict:
+            ctx.check('tail-inside-the-wrapper:rejected', rejected)
+        else:
+            ctx.check('lenient:accepted', not rejected)
+            if not rejected:
+                ctx.check('lenient:consumed', n == len(o))
+                ctx.check('lenient:inner.a', eq(outer['in']['a'], o[0])); ctx.check('lenient:z', eq(outer['z'], o[-1]))
+
+
+def h_spare_var(ctx):
+    """a variable-length spare encoded several times through the same definition object with different lengths: every encoding
+    has exactly the requested number of filler octets, and the codec decodes its own output"""
+    T = env.load(ctx, 'codec')
+    c = T.codec
+    with env.symbolic(ctx):
+        sp = c.Spare('pad', filler=b'\x2b')
+        sp.get_len = lambda v, _: v['n']
+        cls = type('V', (c.Envelope,), dict(STRUCT=(c.Uint('n'), sp, c.Uint('z'))))
+        e = cls()
+        z = ctx.int('z', 0, 255)
+        for k, n in enumerate((3, 1, 2, 0, 3)):
+            e.c.clear(); e['n'] = n; e['z'] = z
+            with ctx.no_raise('encode[%d]:no-exception' % k):
+                data = e.to_bytes()
+            raw = raw_of(data)
+            ctx.check('encode[%d]:length' % k, len(raw) == 2 + n, got=len(raw), want=2 + n)
+            if len(raw) == 2 + n:
+                ctx.check('encode[%d]:filler' % k, all(x == 0x2b for x in raw[1:1 + n]) and bool(eq(raw[-1], z) is not False))
+                ctx.check('encode[%d]:last' % k, eq(raw[-1], z))
+            d = cls()
+            with ctx.no_raise('decode[%d]:own-output-accepted' % k):
+                d.from_bytes(data)
